@@ -36,6 +36,13 @@ const (
 )
 
 // JSONName is protoc's lowerCamel json_name algorithm.
+func jsonNameOf(f *Field) string {
+	if f.JSON != "" {
+		return f.JSON
+	}
+	return JSONName(f.Name)
+}
+
 func JSONName(s string) string {
 	var b strings.Builder
 	up := false
@@ -206,7 +213,7 @@ func (l *lowerer) message(m *Message, scope string, p []int32) *descriptorpb.Des
 			Name:     proto.String(f.Name),
 			Number:   proto.Int32(f.Num),
 			Type:     f.Type.Enum(),
-			JsonName: proto.String(JSONName(f.Name)),
+			JsonName: proto.String(jsonNameOf(f)),
 			Label:    descriptorpb.FieldDescriptorProto_LABEL_OPTIONAL.Enum(),
 		}
 		if f.Type == Msg || f.Type == Enum {
